@@ -6,6 +6,127 @@ Helper lemmas for C03 / C12 (header part of the writer and its inverse through t
 -/
 deriving instance DecidableEq for Except
 
+namespace Lasio
+
+/-! ### `upper` / `lower` on every character (not only the harness alphabet) -/
+
+theorem toNat_ofNat_small (k : Nat) (h : k < 0xD800) : (Char.ofNat k).toNat = k := by
+  have hv : k.isValidChar := Or.inl h
+  simp [Char.ofNat, hv, Char.toNat, Char.ofNatAux]
+
+def InLower (n : Nat) : Prop :=
+  (0x61 ≤ n ∧ n ≤ 0x7A) ∨ (0xE0 ≤ n ∧ n ≤ 0xFE ∧ n ≠ 0xF7) ∨ (0x430 ≤ n ∧ n ≤ 0x44F) ∨
+  (0x3B1 ≤ n ∧ n ≤ 0x3C9 ∧ n ≠ 0x3C2)
+
+/-- the value of `upperC` by ranges -/
+theorem upperC_cases (c : Char) :
+    (InLower c.toNat ∧ upperC c = Char.ofNat (c.toNat - 0x20)) ∨
+    ((0x450 ≤ c.toNat ∧ c.toNat ≤ 0x45F) ∧ upperC c = Char.ofNat (c.toNat - 0x50)) ∨
+    (¬ InLower c.toNat ∧ ¬ (0x450 ≤ c.toNat ∧ c.toNat ≤ 0x45F) ∧ upperC c = c) := by
+  unfold upperC InLower
+  dsimp only
+  split
+  · rename_i h; simp only [Bool.and_eq_true, decide_eq_true_eq] at h
+    exact Or.inl ⟨Or.inl h, rfl⟩
+  rename_i h1; simp only [Bool.and_eq_true, decide_eq_true_eq] at h1
+  split
+  · rename_i h; simp only [Bool.and_eq_true, decide_eq_true_eq, bne_iff_ne, ne_eq] at h
+    exact Or.inl ⟨Or.inr (Or.inl ⟨h.1.1, h.1.2, h.2⟩), rfl⟩
+  rename_i h2; simp only [Bool.and_eq_true, decide_eq_true_eq, bne_iff_ne, ne_eq] at h2
+  split
+  · rename_i h; simp only [Bool.and_eq_true, decide_eq_true_eq] at h
+    exact Or.inl ⟨Or.inr (Or.inr (Or.inl h)), rfl⟩
+  rename_i h3; simp only [Bool.and_eq_true, decide_eq_true_eq] at h3
+  split
+  · rename_i h; simp only [Bool.and_eq_true, decide_eq_true_eq] at h
+    exact Or.inr (Or.inl ⟨h, rfl⟩)
+  rename_i h4; simp only [Bool.and_eq_true, decide_eq_true_eq] at h4
+  split
+  · rename_i h; simp only [Bool.and_eq_true, decide_eq_true_eq, bne_iff_ne, ne_eq] at h
+    exact Or.inl ⟨Or.inr (Or.inr (Or.inr ⟨h.1.1, h.1.2, h.2⟩)), rfl⟩
+  rename_i h5; simp only [Bool.and_eq_true, decide_eq_true_eq, bne_iff_ne, ne_eq] at h5
+  refine Or.inr (Or.inr ⟨?_, h4, rfl⟩)
+  rintro (h | h | h | h)
+  · exact h1 h
+  · exact h2 ⟨⟨h.1, h.2.1⟩, h.2.2⟩
+  · exact h3 h
+  · exact h5 ⟨⟨h.1, h.2.1⟩, h.2.2⟩
+
+theorem upperC_fix (d : Char) (h1 : ¬ InLower d.toNat) (h2 : ¬ (0x450 ≤ d.toNat ∧ d.toNat ≤ 0x45F)) :
+    upperC d = d := by
+  rcases upperC_cases d with ⟨h, _⟩ | ⟨h, _⟩ | ⟨_, _, h⟩
+  · exact absurd h h1
+  · exact absurd h h2
+  · exact h
+
+theorem upperC_fix_ofNat (k : Nat) (hk : k < 0xD800) (h1 : ¬ InLower k) (h2 : ¬ (0x450 ≤ k ∧ k ≤ 0x45F)) :
+    upperC (Char.ofNat k) = Char.ofNat k := by
+  apply upperC_fix <;> rw [toNat_ofNat_small k hk] <;> assumption
+
+theorem upperC_idem (c : Char) : upperC (upperC c) = upperC c := by
+  rcases upperC_cases c with ⟨h, e⟩ | ⟨h, e⟩ | ⟨h1, h2, e⟩
+  · rw [e]
+    unfold InLower at h
+    apply upperC_fix_ofNat <;> (try unfold InLower) <;> omega
+  · rw [e]
+    apply upperC_fix_ofNat <;> (try unfold InLower) <;> omega
+  · rw [e, e]
+
+theorem upper_idem (s : Str) : upper (upper s) = upper s := by
+  simp [upper, List.map_map, Function.comp_def, upperC_idem]
+
+def InUpper (n : Nat) : Prop :=
+  (0x41 ≤ n ∧ n ≤ 0x5A) ∨ (0xC0 ≤ n ∧ n ≤ 0xDE ∧ n ≠ 0xD7) ∨ (0x410 ≤ n ∧ n ≤ 0x42F) ∨
+  (0x391 ≤ n ∧ n ≤ 0x3A9 ∧ n ≠ 0x3A2)
+
+theorem lowerC_cases (c : Char) :
+    (InUpper c.toNat ∧ lowerC c = Char.ofNat (c.toNat + 0x20)) ∨
+    ((0x400 ≤ c.toNat ∧ c.toNat ≤ 0x40F) ∧ lowerC c = Char.ofNat (c.toNat + 0x50)) ∨
+    (lowerC c = c) := by
+  unfold lowerC InUpper
+  dsimp only
+  split
+  · rename_i h; simp only [Bool.and_eq_true, decide_eq_true_eq] at h
+    exact Or.inl ⟨Or.inl h, rfl⟩
+  split
+  · rename_i h; simp only [Bool.and_eq_true, decide_eq_true_eq, bne_iff_ne, ne_eq] at h
+    exact Or.inl ⟨Or.inr (Or.inl ⟨h.1.1, h.1.2, h.2⟩), rfl⟩
+  split
+  · rename_i h; simp only [Bool.and_eq_true, decide_eq_true_eq] at h
+    exact Or.inl ⟨Or.inr (Or.inr (Or.inl h)), rfl⟩
+  split
+  · rename_i h; simp only [Bool.and_eq_true, decide_eq_true_eq] at h
+    exact Or.inr (Or.inl ⟨h, rfl⟩)
+  split
+  · rename_i h; simp only [Bool.and_eq_true, decide_eq_true_eq, bne_iff_ne, ne_eq] at h
+    exact Or.inl ⟨Or.inr (Or.inr (Or.inr ⟨h.1.1, h.1.2, h.2⟩)), rfl⟩
+  exact Or.inr (Or.inr rfl)
+
+theorem upperC_lowerC (c : Char) : upperC (lowerC c) = upperC c := by
+  rcases lowerC_cases c with ⟨h, e⟩ | ⟨h, e⟩ | e
+  · have hc : upperC c = c := by
+      apply upperC_fix <;> (try unfold InLower) <;> unfold InUpper at h <;> omega
+    rw [e, hc]
+    unfold InUpper at h
+    rcases upperC_cases (Char.ofNat (c.toNat + 0x20)) with ⟨_, e2⟩ | ⟨h2, _⟩ | ⟨h2, _, _⟩
+    · rw [e2, toNat_ofNat_small _ (by omega), Nat.add_sub_cancel, Char.ofNat_toNat]
+    · rw [toNat_ofNat_small _ (by omega)] at h2; omega
+    · rw [toNat_ofNat_small _ (by omega)] at h2
+      exfalso; apply h2; unfold InLower; omega
+  · have hc : upperC c = c := by
+      apply upperC_fix <;> (try unfold InLower) <;> omega
+    rw [e, hc]
+    rcases upperC_cases (Char.ofNat (c.toNat + 0x50)) with ⟨h2, _⟩ | ⟨_, e2⟩ | ⟨_, h2, _⟩
+    · rw [toNat_ofNat_small _ (by omega)] at h2; unfold InLower at h2; omega
+    · rw [e2, toNat_ofNat_small _ (by omega), Nat.add_sub_cancel, Char.ofNat_toNat]
+    · rw [toNat_ofNat_small _ (by omega)] at h2; omega
+  · rw [e]
+
+theorem upper_lower (s : Str) : upper (lower s) = upper s := by
+  simp [upper, lower, List.map_map, Function.comp_def, upperC_lowerC]
+
+end Lasio
+
 namespace Lasio.Wr
 
 /-! ### widths -/
@@ -112,18 +233,18 @@ theorem orderOf_fixed (v s : String) (hs : s = "Curves" ∨ s = "Parameter") (m 
     simp only [hcp, Bool.not_true, Bool.false_or, Bool.and_eq_true, beq_iff_eq, List.isEmpty_iff] at ht
     obtain ⟨hd, hr⟩ := ht
     subst hd hr
-    simp only [hso, ordersGet, List.foldl_nil, Option.getD_none] at h
+    simp only [hso, ordersGet2, ordersGet, List.foldl_nil, Option.getD_none] at h
     have : parseOrder "value:descr" = some .valueDescr := by decide
     rw [this] at h
     cases h
     rfl
 
 theorem ordersGet_mem (rows : List (String × List String)) (m : Str) (s : String)
-    (h : ordersGet rows m = some s) : ∃ r ∈ rows, r.1 = s := by
+    (h : ordersGet rows m = some s) : ∃ r ∈ rows, r.1 = s ∧ ∃ x ∈ r.2, x.toList = m := by
   unfold ordersGet at h
   have gen : ∀ (rows : List (String × List String)) (acc : Option String),
       rows.foldl (fun acc r => if r.2.any (fun x => x.toList == m) then some r.1 else acc) acc = some s →
-      acc = some s ∨ ∃ r ∈ rows, r.1 = s := by
+      acc = some s ∨ ∃ r ∈ rows, r.1 = s ∧ ∃ x ∈ r.2, x.toList = m := by
     intro rows
     induction rows with
     | nil => intro acc h; exact Or.inl h
@@ -132,12 +253,63 @@ theorem ordersGet_mem (rows : List (String × List String)) (m : Str) (s : Strin
       simp only [List.foldl_cons] at h
       rcases ih _ h with h1 | ⟨r', hr', e⟩
       · split at h1
-        · exact Or.inr ⟨r, by simp, by simpa using h1⟩
+        · rename_i hany
+          obtain ⟨x, hx, hxe⟩ := List.any_eq_true.mp hany
+          exact Or.inr ⟨r, by simp, by simpa using h1, x, hx, by simpa using hxe⟩
         · exact Or.inl h1
       · exact Or.inr ⟨r', by simp [hr'], e⟩
   rcases gen rows none h with h1 | h1
   · cases h1
   · exact h1
+
+theorem ordersGet2_mem (rows : List (String × List String)) (m : Str) (s : String)
+    (h : ordersGet2 rows m = some s) : ∃ r ∈ rows, r.1 = s := by
+  unfold ordersGet2 at h
+  split at h
+  · rename_i s' hs
+    cases h
+    obtain ⟨r, hr, e, _⟩ := ordersGet_mem rows m s hs
+    exact ⟨r, hr, e⟩
+  · obtain ⟨r, hr, e, _⟩ := ordersGet_mem rows _ s h
+    exact ⟨r, hr, e⟩
+
+/-- the exception keys of every section are closed under `upper`, with the same order (checked on the
+generated table): `STRT`/`strt` … all map to the order of `STRT` … -/
+theorem table_upper_closed :
+    Generated.orderDefinitions.all (fun r => r.2.2.2.all (fun row => row.2.all (fun k =>
+      ordersGet r.2.2.2 (upper k.toList) == ordersGet r.2.2.2 k.toList))) = true := by
+  decide
+
+/-- on such a table the two-step lookup is the lookup of the upper-cased mnemonic -/
+theorem ordersGet2_eq_upper (rows : List (String × List String))
+    (hcl : rows.all (fun row => row.2.all (fun k => ordersGet rows (upper k.toList) == ordersGet rows k.toList)) = true)
+    (m : Str) : ordersGet2 rows m = ordersGet rows (upper m) := by
+  unfold ordersGet2
+  split
+  · rename_i s hs
+    obtain ⟨r, hr, _, x, hx, hxm⟩ := ordersGet_mem rows m s hs
+    have := List.all_eq_true.mp (List.all_eq_true.mp hcl r hr) x hx
+    simp only [beq_iff_eq] at this
+    rw [hxm] at this
+    rw [this, hs]
+  · rfl
+
+/-- the order depends on the mnemonic only through its upper-cased form -/
+theorem orderOf_upper (v s : String) (m m' : Str) (h : upper m = upper m') : orderOf v s m = orderOf v s m' := by
+  unfold orderOf
+  rcases hso : sectionOrders v s with _ | ⟨d, rows⟩
+  · rfl
+  · have hm := sectionOrders_mem hso
+    have hcl := List.all_eq_true.mp table_upper_closed _ hm
+    simp only [ordersGet2_eq_upper rows hcl, h]
+
+/-- reader and writer agree under every `mnemonic_case` -/
+theorem orderOf_caseMap (v s : String) (c : MCase) (m : Str) : orderOf v s (caseMap c m) = orderOf v s m := by
+  apply orderOf_upper
+  cases c
+  · rfl
+  · exact upper_idem m
+  · exact upper_lower m
 
 /-- a version present in the table gives a usable order for every section and every mnemonic -/
 theorem orderOf_total (v : String) (hv : versionPresent v = true) (s : String)
@@ -162,13 +334,13 @@ theorem orderOf_total (v : String) (hv : versionPresent v = true) (s : String)
       obtain ⟨hp1, hp2⟩ := hp
       unfold orderOf
       simp only [hso]
-      have : (parseOrder ((ordersGet rows m).getD d)).isSome = true := by
-        rcases hg : ordersGet rows m with _ | s'
+      have : (parseOrder ((ordersGet2 rows m).getD d)).isSome = true := by
+        rcases hg : ordersGet2 rows m with _ | s'
         · simpa using hp1
-        · obtain ⟨r', hr', e⟩ := ordersGet_mem rows m s' hg
+        · obtain ⟨r', hr', e⟩ := ordersGet2_mem rows m s' hg
           have := List.all_eq_true.mp hp2 r' hr'
           simpa [e] using this
-      rcases hpo : parseOrder ((ordersGet rows m).getD d) with _ | o
+      rcases hpo : parseOrder ((ordersGet2 rows m).getD d) with _ | o
       · simp [hpo] at this
       · exact ⟨o, rfl⟩
 
@@ -282,7 +454,6 @@ theorem stripBrackets_id (u : Str) (hsp : ∀ c ∈ u, isPySpace c = false) (hbr
 /-- parsing a line laid out as the writer does gives the item back -/
 theorem readItem_layout (v : String) (kind : SecName) (c : MCase) (o : Order) (it : WItem) (p1 p2 p4 : Str)
     (hkind : kind ≠ .other) (hw : orderOf v (secKey kind) it.orig = .ok o)
-    (hcase : orderOf v (secKey kind) (caseMap c it.orig) = orderOf v (secKey kind) it.orig)
     (hconf : Conf kind (lineFields o it)) (hnum : it.unit = [] ∨ ¬ allDigits it.unit)
     (hbr : isBracketed it.unit = false)
     (b1 : Blank p1) (b2 : Blank p2) (b4 : Blank p4)
@@ -305,10 +476,10 @@ theorem readItem_layout (v : String) (kind : SecName) (c : MCase) (o : Order) (i
     subst this
     rfl
   | version =>
-    simp only [readerOrderOf_eq v .version (by decide), hcase, hw]
+    simp only [readerOrderOf_eq v .version (by decide), orderOf_caseMap, hw]
     cases o <;> rfl
   | well =>
-    simp only [readerOrderOf_eq v .well (by decide), hcase, hw]
+    simp only [readerOrderOf_eq v .well (by decide), orderOf_caseMap, hw]
     cases o <;> rfl
 
 theorem getLast?_append_ne (X L : Str) (h : L ≠ []) : (X ++ L).getLast? = L.getLast? := by
@@ -381,7 +552,6 @@ theorem layout_head (f : Fields) (a : Char) (t : Str) (h : f.name = a :: t) (p1 
 /-- one iteration of the reader's loop on a written line -/
 theorem readLine_formatItem (v : String) (kind : SecName) (c : MCase) (o : Order) (W : Widths) (it : WItem)
     (hkind : kind ≠ .other) (hw : orderOf v (secKey kind) it.orig = .ok o)
-    (hcase : orderOf v (secKey kind) (caseMap c it.orig) = orderOf v (secKey kind) it.orig)
     (hconf : Conf kind (lineFields o it)) (hnum : it.unit = [] ∨ ¬ allDigits it.unit)
     (hbr : isBracketed it.unit = false)
     (hpad : rhsOf o it ≠ [] → 1 ≤ W.middle - it.unit.length - (rhsOf o it).length)
@@ -390,7 +560,7 @@ theorem readLine_formatItem (v : String) (kind : SecName) (c : MCase) (o : Order
   have hne : it.orig ≠ [] := hconf.name_ne
   have hr := readItem_layout v kind c o it (List.replicate (W.left - it.orig.length) ' ')
     (List.replicate (W.middle - it.unit.length - (rhsOf o it).length) ' ')
-    (if lastOf o it = [] then [] else [' ']) hkind hw hcase hconf hnum hbr
+    (if lastOf o it = [] then [] else [' ']) hkind hw hconf hnum hbr
     (blank_replicate _) (blank_replicate _) (by split; exact blank_nil; exact blank_one)
     (by
       intro h1 h2
